@@ -266,7 +266,7 @@ class Prov:
                     if s[0] == 'mutfmt':
                         a = self.macro_args(fn, s[1], env, d)
                         pushes.append(('fmt', fmt_string(s[1]['text']), a[1:]))
-                    elif s[1] == 'push_str':
+                    elif s[1] == 'push_str' or (s[1] == 'push' and self._ordered_text(fn, hid)):
                         pushes.append(self.eval(fn, s[2], env, d))
                     else:
                         elems.append(self.eval(fn, s[2], env, d))
@@ -293,7 +293,7 @@ class Prov:
                 if s[0] == 'mutfmt':
                     a = self.macro_args(fn, s[1], env, d)
                     pushes.append(('fmt', fmt_string(s[1]['text']), a[1:]))
-                elif s[0] == 'mut' and s[1] == 'push_str':
+                elif s[0] == 'mut' and (s[1] == 'push_str' or (s[1] == 'push' and self._ordered_text(fn, hid))):
                     pushes.append(self.eval(fn, s[2], env, d))
                 else:
                     vals.append(self.eval_src(fn, s, env, d))
@@ -305,6 +305,11 @@ class Prov:
             return t
         finally:
             self.stack.pop()
+
+    def _ordered_text(self, fn, hid):
+        """`push` on a String (a char) or a PathBuf (a component) appends to a text, it does not add a collection element"""
+        ty = (fn.bind_types.get(hid) or '').replace('&', '').replace('mut ', '').strip()
+        return ty in ('std::string::String', 'std::path::PathBuf', 'String', 'PathBuf')
 
     def _has_rec(self, t):
         for s_ in subterms(t):
@@ -608,6 +613,12 @@ class Prov:
                 m = st.get('init') if st['k'] == 'let' else st.get('e')
                 while m is not None and m.get('k') in ('wrap',):
                     m = m.get('e')
+                if m is not None and m.get('k') == 'try':
+                    oty = (m['e'].get('ty') or '').replace(' ', '')
+                    if oty.startswith(('std::option::Option<', 'core::option::Option<', 'Option<')):
+                        # `let x = opt?;`: the function's value is None when opt is None, the rest of the block otherwise
+                        v = ('if', ('op', 'is_some', (self.eval(fn, m['e'], env, d),)), v, ('early', ('none',)))
+                        continue
                 if m is not None and m.get('k') == 'match' and any(ret_expr_of(a['body']) is not None or a['body'].get('k') == 'ret' for a in m['arms']):
                     # arms that leave the function carry its value on that path; the other arms continue with the block
                     arms = []
